@@ -126,7 +126,67 @@ def run(cfg):
             okp = 'isLeapYear' in txt and 'sDaysInMonth' in txt
     ob('R2', h.name, h.loc, okp, 'daysInMonth() does not combine sDaysInMonth[month-1] with the leap February')
     onedays(R, lib, ob)
+    localtime_pairing(R, lib, ob)
     return R
+
+
+def localtime_pairing(R, lib, ob):
+    """LocalTime::forSeconds decomposes with %60, /60, %60, /60; toSeconds recomposes ((h*60)+m)*60+s; isError bounds the fields."""
+    R.rule('R5', 'LocalTime: seconds-of-day decomposition pairs with the recomposition; isError() bounds every field', floor=3)
+    f = lib.fn('ace_time::LocalTime::forSeconds')
+    S = Poly.atom(('sym', f.params[0][0]))
+    s = SymExec(fold_global=lib.global_value).run(f.name, f.body, {})
+    ok, why = False, 'no valid-path decomposition found'
+    for gd, kind, res, eff in s.paths:
+        if kind != 'return' or res is None:
+            continue
+        a = None
+        p = _P(res)
+        if len(p.t) == 1:
+            (k, v), = p.t.items()
+            a = k[0] if len(k) == 1 and v == 1 else None
+        if a is None or a[0] != 'init' or len(a[2]) != 3:
+            continue
+        h, m, sec = (_P(x) for x in a[2])
+        if sec.is_const():
+            continue        # the sentinel path
+        q1 = Poly.atom(('tdiv', S.key(), Poly.const(60).key()))
+        want = (Poly.atom(('tdiv', q1.key(), Poly.const(60).key())), Poly.atom(('tmod', q1.key(), Poly.const(60).key())),
+                Poly.atom(('tmod', S.key(), Poly.const(60).key())))
+        ok = (h, m, sec) == want
+        why = 'forSeconds builds (hour, minute, second) = (%r, %r, %r)' % (h, m, sec)
+    ob('R5', f.name, f.loc, ok, why)
+    g = lib.fn('ace_time::LocalTime::toSeconds')
+    s = SymExec(fold_global=lib.global_value).run(g.name, g.body, {})
+    H, M, Sx = (Poly.atom(('sym', 'this.' + n)) for n in ('mHour', 'mMinute', 'mSecond'))
+    ok = any(kind == 'return' and res is not None and _P(res) == H * Poly.const(3600) + M * Poly.const(60) + Sx for gd, kind, res, eff in s.paths)
+    ob('R5', g.name, g.loc, ok, 'toSeconds() is not (hour*60 + minute)*60 + second on the valid path')
+    e = lib.fn('ace_time::LocalTime::isError')
+    s = SymExec(fold_global=lib.global_value).run(e.name, e.body, {})
+    # the non-error paths must imply second < 60, minute < 60, hour <= 24 (and 24:00:00 only)
+    from .gnf import eval_formula
+    bad = []
+    for hh in (0, 23, 24, 25, 255):
+        for mm in (0, 59, 60, 255):
+            for ss in (0, 59, 60, 255):
+                def assign(a, hh=hh, mm=mm, ss=ss):
+                    return {('sym', 'this.mHour'): hh, ('sym', 'this.mMinute'): mm, ('sym', 'this.mSecond'): ss}.get(a)
+                val = None
+                for gd, kind, res, eff in s.paths:
+                    try:
+                        if eval_formula(gd, assign):
+                            if res is not None and _P(res).is_const():
+                                val = bool(_P(res).const_value())
+                            else:
+                                # boolean expression result: evaluate its comparison atoms
+                                from .gnf import eval_poly
+                                val = None
+                    except KeyError:
+                        val = None
+                valid = ss < 60 and mm < 60 and (hh < 24 or (hh == 24 and mm == 0 and ss == 0))
+                if val is not None and val != (not valid):
+                    bad.append((hh, mm, ss))
+    ob('R5', e.name, e.loc, not bad, 'isError() misclassifies (hour, minute, second) in %s' % bad[:4])
 
 
 def _setter_args(eff):
@@ -204,6 +264,8 @@ def onedays(R, lib, ob):
 
 
 SELFTEST = [
+    dict(id='localtime-minute-from-seconds', file='src/ace_time/LocalTime.h', find='        minute = minutes % 60;', replace='        minute = seconds % 60;', rule='R5'),
+    dict(id='localtime-recomposition', file='src/ace_time/LocalTime.h', find='return ((mHour * (int16_t) 60) + mMinute)', replace='return ((mHour * (int16_t) 24) + mMinute)', rule='R5'),
     dict(id='leap-century-rule-dropped', file='src/ace_time/LocalDate.h',
          find='return ((year % 4 == 0) && (year % 100 != 0)) || (year % 400 == 0);', replace='return (year % 4 == 0);', rule='R1', construct='isLeapYear'),
     dict(id='python-leap-rule', file='tools/tzdb/transformer.py',
